@@ -4,7 +4,10 @@
 //! time for exactly one step. A thread parks (a) before each call, (b) at the
 //! `verif-hooks` pause point at the start of every execution of the closure
 //! that insert/retain/remove pass to `ArcSwap::rcu` (i.e. after the load /
-//! after a failed compare-and-swap), (c) between `guard()` and iterating.
+//! after a failed compare-and-swap), (c) between `guard()` and iterating,
+//! (d) in the default function given to `entry(k).or_insert_with(..)`, i.e.
+//! after `entry()` found the key vacant and before the value is inserted (the
+//! insert that follows parks at (b) like any other).
 //!
 //! Special entry point: `vh c18-stress <threads> <ops> <rounds> <seed>` runs
 //! free-running threads and judges every recorded call/return history with a
@@ -12,7 +15,7 @@
 use rotonda::verif::frim::{set_pause_hook, FrimMap};
 use std::collections::{BTreeMap, HashSet};
 use std::rc::Rc;
-use std::sync::atomic::{AtomicU64, Ordering};
+use std::sync::atomic::{AtomicBool, AtomicU64, Ordering};
 use std::sync::mpsc::{channel, Receiver, Sender};
 use std::sync::{Arc, Barrier};
 use std::time::Duration;
@@ -27,6 +30,9 @@ pub enum Op {
     Has(u32),
     Len,
     Iter,
+    Empty,
+    /// `entry(k).or_insert_with(|| v)`
+    Entry(u32, u32),
 }
 
 #[derive(Clone, Debug, PartialEq, Eq, Hash)]
@@ -36,6 +42,7 @@ pub enum Ret {
     Bool(bool),
     Num(usize),
     List(Vec<(u32, u32)>),
+    Val(u32),
 }
 
 pub fn keep(kind: &str, c: u32, k: u32, v: u32) -> bool {
@@ -60,6 +67,8 @@ pub fn parse_op(t: &[&str]) -> Op {
         ("H", 2) => Op::Has(n(1)),
         ("L", 1) => Op::Len,
         ("E", 1) => Op::Iter,
+        ("Z", 1) => Op::Empty,
+        ("N", 3) => Op::Entry(n(1), n(2)),
         _ => panic!("bad op: {}", t.join(" ")),
     }
 }
@@ -82,6 +91,7 @@ pub fn show_ret(r: &Ret) -> String {
         Ret::Bool(b) => if *b { "b1".into() } else { "b0".into() },
         Ret::Num(n) => format!("l{n}"),
         Ret::List(l) => show_vec(l),
+        Ret::Val(v) => format!("v{v}"),
     }
 }
 
@@ -98,7 +108,8 @@ fn build(kvs: &[(u32, u32)]) -> FrimMap<u32, u32> {
     m
 }
 
-/// One call on the real map. `between` runs between `guard()` and the iteration.
+/// One call on the real map. `between` runs between `guard()` and the iteration,
+/// and inside the default function of `or_insert_with` (only called if the entry is vacant).
 pub fn apply(map: &FrimMap<u32, u32>, op: &Op, between: &dyn Fn()) -> Ret {
     apply_with(map, op, between, None)
 }
@@ -119,11 +130,22 @@ pub fn apply_with(map: &FrimMap<u32, u32>, op: &Op, between: &dyn Fn(), prebuilt
             let l: Vec<(u32, u32)> = g.iter().cloned().collect();
             Ret::List(l)
         }
+        Op::Empty => Ret::Bool(map.is_empty()),
+        Op::Entry(k, v) => Ret::Val(map.entry(*k).or_insert_with(|| {
+            between();
+            *v
+        })),
     }
 }
 
+/// A step that does not come back within 10 s is reported as HANG<t> (e.g. a writer blocked on a lock that a parked
+/// writer holds: the model has no such step). Once that has happened in this process the following cases wait 500 ms
+/// only, so that a tree in which many schedules block is reported in minutes, not hours.
+static HANG_SEEN: AtomicBool = AtomicBool::new(false);
+
 enum Report {
-    Parked,
+    /// parked inside a call; `true`: at the pause point of an rcu closure
+    Parked(bool),
     Done(Ret),
 }
 
@@ -132,6 +154,8 @@ struct Worker {
     rep: Receiver<Report>,
     left: usize,
     rets: Vec<Ret>,
+    /// executions of an rcu closure in the current call so far
+    closure_runs: usize,
     handle: Option<std::thread::JoinHandle<()>>,
 }
 
@@ -140,9 +164,9 @@ fn worker(map: Arc<FrimMap<u32, u32>>, ops: Vec<Op>, go: Receiver<()>, rep: Send
     let park = {
         let go = go.clone();
         let rep = rep.clone();
-        move || {
+        move |in_closure: bool| {
             // if the controller is gone, run on freely
-            if rep.send(Report::Parked).is_ok() {
+            if rep.send(Report::Parked(in_closure)).is_ok() {
                 let _ = go.recv();
             }
         }
@@ -152,13 +176,13 @@ fn worker(map: Arc<FrimMap<u32, u32>>, ops: Vec<Op>, go: Receiver<()>, rep: Send
         ops.iter().map(|op| if let Op::Repl(kvs) = op { Some(build(kvs)) } else { None }).collect();
     {
         let park = park.clone();
-        set_pause_hook(Some(Box::new(move |_site| park())));
+        set_pause_hook(Some(Box::new(move |_site| park(true))));
     }
     for (i, op) in ops.iter().enumerate() {
         if go.recv().is_err() {
             break;
         }
-        let r = apply_with(&map, op, &park, prebuilt[i].take());
+        let r = apply_with(&map, op, &|| park(false), prebuilt[i].take());
         if rep.send(Report::Done(r)).is_err() {
             break;
         }
@@ -203,12 +227,12 @@ pub fn run_case(line: &str) -> String {
             let m = map.clone();
             let o = ops.clone();
             let h = std::thread::spawn(move || worker(m, o, go_rx, rep_tx));
-            Worker { go: go_tx, rep: rep_rx, left: ops.len(), rets: vec![], handle: Some(h) }
+            Worker { go: go_tx, rep: rep_rx, left: ops.len(), rets: vec![], closure_runs: 0, handle: Some(h) }
         })
         .collect();
 
-    let mut parks = 0usize; // parks inside a call = 1 per rcu call + 1 per failed CAS (+1 per iteration)
-    let mut base = 0usize;
+    // failed compare-and-swap attempts: every execution of an rcu closure within one call but the first
+    let mut failed = 0usize;
     let mut trouble: Option<String> = None;
     let mut step = |ws: &mut Vec<Worker>, t: usize, trouble: &mut Option<String>| {
         let w = &mut ws[t];
@@ -219,10 +243,19 @@ pub fn run_case(line: &str) -> String {
             *trouble = Some(format!("DEAD{t}"));
             return;
         }
-        match w.rep.recv_timeout(Duration::from_secs(10)) {
-            Ok(Report::Parked) => parks += 1,
-            Ok(Report::Done(r)) => { w.rets.push(r); w.left -= 1; }
-            Err(_) => *trouble = Some(format!("HANG{t}")),
+        let patience = if HANG_SEEN.load(Ordering::Relaxed) { Duration::from_millis(500) } else { Duration::from_secs(10) };
+        match w.rep.recv_timeout(patience) {
+            Ok(Report::Parked(in_closure)) => {
+                if in_closure {
+                    if w.closure_runs > 0 { failed += 1; }
+                    w.closure_runs += 1;
+                }
+            }
+            Ok(Report::Done(r)) => { w.rets.push(r); w.left -= 1; w.closure_runs = 0; }
+            Err(_) => {
+                HANG_SEEN.store(true, Ordering::Relaxed);
+                *trouble = Some(format!("HANG{t}"))
+            }
         }
     };
     for &t in &sched {
@@ -231,15 +264,6 @@ pub fn run_case(line: &str) -> String {
     for t in 0..nthreads {
         while ws[t].left > 0 && trouble.is_none() {
             step(&mut ws, t, &mut trouble);
-        }
-    }
-    // every rcu call and every iteration parks once without a failed CAS
-    for (t, ops) in progs.iter().enumerate() {
-        for (i, op) in ops.iter().enumerate() {
-            let completed_or_started = i < ws[t].rets.len();
-            if completed_or_started && matches!(op, Op::Ins(..) | Op::Rem(..) | Op::Retain(..) | Op::Iter) {
-                base += 1;
-            }
         }
     }
     let mut out: Vec<String> = vec![];
@@ -251,7 +275,7 @@ pub fn run_case(line: &str) -> String {
     if let Some(tr) = &trouble { out.push(tr.clone()); }
     out.push("F".into());
     out.push(show_vec(&contents(&map)));
-    out.push(format!("x{}", parks.saturating_sub(base)));
+    out.push(format!("x{failed}"));
     // let the workers go (they run on freely once the channels are closed)
     for w in ws.iter_mut() {
         let (dead_tx, _) = channel();
@@ -268,7 +292,7 @@ pub fn run_case(line: &str) -> String {
 // ------------------------------------------------------------------ stress
 
 #[derive(Clone, Debug)]
-struct Rec { call: u64, ret: u64, op: Op, r: Ret, thread: usize }
+struct Rec { call: u64, ret: u64, op: Op, r: Ret, thread: usize, shown: String }
 
 fn spec_apply(m: &mut BTreeMap<u32, u32>, op: &Op) -> Ret {
     match op {
@@ -280,6 +304,9 @@ fn spec_apply(m: &mut BTreeMap<u32, u32>, op: &Op) -> Ret {
         Op::Has(k) => Ret::Bool(m.contains_key(k)),
         Op::Len => Ret::Num(m.len()),
         Op::Iter => Ret::List(m.iter().map(|(k, v)| (*k, *v)).collect()),
+        Op::Empty => Ret::Bool(m.is_empty()),
+        // one task alone: get, else insert (a recorded entry call is judged as its parts, see `stress`)
+        Op::Entry(k, v) => Ret::Val(*m.entry(*k).or_insert(*v)),
     }
 }
 
@@ -334,12 +361,14 @@ impl Sm {
 fn random_op(rng: &mut Sm, fresh: &mut u32) -> Op {
     let k = 1 + rng.below(2) as u32;
     match rng.below(100) {
-        0..=29 => { *fresh += 1; Op::Ins(k, *fresh) }
-        30..=64 => Op::Rem(k),
-        65..=72 => Op::Get(k),
-        73..=77 => Op::Has(k),
-        78..=82 => Op::Len,
-        83..=89 => Op::Iter,
+        0..=22 => { *fresh += 1; Op::Ins(k, *fresh) }
+        23..=52 => Op::Rem(k),
+        53..=66 => { *fresh += 1; Op::Entry(k, *fresh) }
+        67..=73 => Op::Get(k),
+        74..=77 => Op::Has(k),
+        78..=81 => Op::Len,
+        82..=83 => Op::Empty,
+        84..=89 => Op::Iter,
         90..=94 => Op::Retain("kne".into(), k),
         _ => { *fresh += 2; Op::Repl(vec![(1, *fresh - 1), (2, *fresh)]) }
     }
@@ -355,6 +384,8 @@ fn show_op(op: &Op) -> String {
         Op::Has(k) => format!("H {k}"),
         Op::Len => "L".into(),
         Op::Iter => "E".into(),
+        Op::Empty => "Z".into(),
+        Op::Entry(k, v) => format!("N {k} {v}"),
     }
 }
 
@@ -375,20 +406,55 @@ fn stress(args: &[String]) {
             let (map, clock, barrier) = (map.clone(), clock.clone(), barrier.clone());
             std::thread::spawn(move || {
                 barrier.wait();
-                ops.into_iter().map(|op| {
-                    let call = clock.fetch_add(1, Ordering::SeqCst);
-                    let r = apply(&map, &op, &|| std::thread::yield_now());
-                    let ret = clock.fetch_add(1, Ordering::SeqCst);
-                    Rec { call, ret, op, r, thread: t }
+                ops.into_iter().flat_map(|op| {
+                    let tick = || clock.fetch_add(1, Ordering::SeqCst);
+                    if let Op::Entry(k, v) = op {
+                        // entry(k).or_insert_with(f) is not one atomic call (C18_linearizable, call_ok): it is judged as
+                        // its parts. Occupied: a lookup that found the value returned. Vacant (f ran): a lookup that found
+                        // nothing, over before f ran, and an insert(k, v) that started after f had run.
+                        let call = tick();
+                        let mut in_default: Option<(u64, u64)> = None;
+                        let got = map.entry(k).or_insert_with(|| {
+                            let lookup_over = tick();
+                            std::thread::yield_now();
+                            in_default = Some((lookup_over, tick()));
+                            v
+                        });
+                        let ret = tick();
+                        match in_default {
+                            None => vec![Rec { call, ret, op: Op::Get(k), r: Ret::Opt(Some(got)), thread: t,
+                                               shown: format!("N {k} {v}=v{got}(occupied)") }],
+                            Some((lookup_over, insert_starts)) => vec![
+                                Rec { call, ret: lookup_over, op: Op::Get(k), r: Ret::Opt(None), thread: t,
+                                      shown: format!("N {k} {v}(lookup: vacant)") },
+                                Rec { call: insert_starts, ret, op: Op::Ins(k, v), r: Ret::Unit, thread: t,
+                                      shown: format!("N {k} {v}=v{got}(insert)") },
+                            ],
+                        }
+                    } else {
+                        let call = tick();
+                        let r = apply(&map, &op, &|| std::thread::yield_now());
+                        let ret = tick();
+                        let shown = format!("{}={}", show_op(&op), show_ret(&r));
+                        vec![Rec { call, ret, op, r, thread: t, shown }]
+                    }
                 }).collect::<Vec<Rec>>()
             })
         }).collect();
         let mut h: Vec<Rec> = hs.into_iter().flat_map(|x| x.join().unwrap()).collect();
+        // when all threads are done: what is left must be a map (len and one iteration agree with the history)
+        for op in [Op::Len, Op::Iter] {
+            let call = clock.fetch_add(1, Ordering::SeqCst);
+            let r = apply(&map, &op, &|| ());
+            let ret = clock.fetch_add(1, Ordering::SeqCst);
+            let shown = format!("{}={}", show_op(&op), show_ret(&r));
+            h.push(Rec { call, ret, op, r, thread: threads, shown });
+        }
         h.sort_by_key(|r| r.call);
         total_ops += h.len() as u64;
         if h.windows(2).any(|w| w[1].call < w[0].ret) { retried_histories += 1; }
         if !linearizable(&h) {
-            let desc: Vec<String> = h.iter().map(|r| format!("t{}@{}-{}:{}={}", r.thread, r.call, r.ret, show_op(&r.op), show_ret(&r.r))).collect();
+            let desc: Vec<String> = h.iter().map(|r| format!("t{}@{}-{}:{}", r.thread, r.call, r.ret, r.shown)).collect();
             println!("nonlinearizable round={round} history= {}", desc.join(" ; "));
             return;
         }
